@@ -10,8 +10,6 @@ Core Lean only.
 namespace LyModel.Diff
 open LyModel LyModel.Tree
 
-abbrev Key := Nat × List (Nat × Bytes)
-
 theorem split_at {α : Type} : ∀ (l : List α) (i : Nat) (a : α), l[i]? = some a →
     l = l.take i ++ a :: l.drop (i + 1) ∧ l.eraseIdx i = l.take i ++ l.drop (i + 1) ∧
     ∀ y, l.set i y = l.take i ++ y :: l.drop (i + 1)
@@ -161,8 +159,9 @@ total order.  Asymmetry and transitivity hold for all keys (`OrderTheory.lean`);
 two instances the order cannot tell apart are the same instance (`lyd_compare_single`), which holds for canonical
 values of the S1 types and is what finding F28 (date-and-time) violates. -/
 structure OrdHyp (S : Schema) (U : DNode → Prop) : Prop where
-  asym : KAsym S
-  trans : ∀ k1 k2 k3, kltK S k1 k2 = true → kltK S k2 k3 = true → kltK S k1 k3 = true
+  asym : KAsymOn S (fun k => ∃ x, U x ∧ kkey S x = k)
+  trans : ∀ x y z, U x → U y → U z → kltK S (kkey S x) (kkey S y) = true → kltK S (kkey S y) (kkey S z) = true →
+    kltK S (kkey S x) (kkey S z) = true
   total : ∀ x y, U x → U y → kkey S x ≠ kkey S y →
     kltK S (kkey S x) (kkey S y) = true ∨ kltK S (kkey S y) (kkey S x) = true
   kids : ∀ x, U x → ∀ c ∈ x.kids, U c
@@ -183,10 +182,12 @@ theorem Inv.insert (S : Schema) (U : DNode → Prop) (ho : OrdHyp S U) (pre as b
     exact this
   have htr : ∀ x ∈ data, ∀ z ∈ data, klt S n x = true → klt S x z = true → klt S n z = true := by
     intro x hx z hz h1 h2
-    rw [klt_eq_kltK S n x hsn (h.shape x hx)] at h1
-    rw [klt_eq_kltK S x z (h.shape x hx) (h.shape z hz)] at h2
-    rw [klt_eq_kltK S n z hsn (h.shape z hz)]
-    exact ho.trans _ _ _ h1 h2
+    obtain ⟨x', hx', hkx⟩ := h.keysIn x hx
+    obtain ⟨z', hz', hkz⟩ := h.keysIn z hz
+    rw [klt_eq_kltK S n x hsn (h.shape x hx), hk, hkx] at h1
+    rw [klt_eq_kltK S x z (h.shape x hx) (h.shape z hz), hkx, hkz] at h2
+    rw [klt_eq_kltK S n z hsn (h.shape z hz), hk, hkz]
+    exact ho.trans b x' z' hbU (hU x' hx') (hU z' hz') h1 h2
   apply Inv.step S pre as bs done data _ (kkey S b) h (insertNode_canon S data n h.canon htot htr)
   · intro x hx
     rcases (mem_insertNode S data n x).1 hx with hx | hx
